@@ -27,3 +27,65 @@ package builder
 //@ effects_only
 //@ effect after "os.Create" only fmt.Errorf, (*os.File).WriteString, (*os.File).Close
 //@ effect last_call (*os.File).WriteString b.CodeLast
+
+// ---------------------------------------------------------------------------------------------
+// What the builders emit INTO the generated file (bridge between the generator's data and the
+// symbolic constants / schematic reduce case the driver contracts are stated over).
+
+//@ def wfBuilder(v *parser.RootVistor) = v != nil && v.LALR1 != nil && v.RuleVistor != nil && v.RuleVistor.astDeclareVistor != nil &&
+//@     v.G != nil && v.G.LR0 != nil &&
+//@     (forall i int :: 0 <= i && i < len(v.G.ProductoinRules) ==> v.G.ProductoinRules[i] != nil && v.G.ProductoinRules[i].LeftPart != nil) &&
+//@     (forall i int :: 0 <= i && i < len(v.G.Symbols) ==> v.G.Symbols[i] != nil)
+
+//@ func (*TemplateBuilder).buildConstPart
+//@ props C06 C08 C11 C19
+//@ requires b != nil && wfBuilder(b.vnode)
+//@ requires forall k string :: has(b.vnode.idsymtabl, k) ==> b.vnode.idsymtabl[k] != nil
+//@ emits [C06,C08] "const ERROR_ACTION = %d" arg1 == len(b.vnode.G.LR0.LR0Closure) + 100
+//@ emits [C06,C08] "const ERROR_ACTION = %d" arg2 == len(b.vnode.G.LR0.LR0Closure) + 200
+//@ emits [C11] "const %s = %d" arg1 == identifier.Name
+//@ emits [C11] "const %s = %d" arg2 == identifier.Value
+//@ emits [C11] "const %s = %d" assert identifier.IDTyp == parser.TERMID
+//@ ensures [C19] b.CodeLast == b.vnode.CodeCpy
+//@ ensures [C05,C08] b.NTerminals == len(b.vnode.G.VtSet)
+
+//@ func (*TsBuilder).buildConstPart
+//@ props C06 C08 C11
+//@ requires b != nil && wfBuilder(b.vnode)
+//@ requires forall k string :: has(b.vnode.idsymtabl, k) ==> b.vnode.idsymtabl[k] != nil
+//@ emits [C06,C08] "const ERROR_ACTION = %d" arg1 == len(b.vnode.G.LR0.LR0Closure) + 100
+//@ emits [C06,C08] "const ACCEPT_ACTION = %d" assert true
+//@ emits [C11] "const %s = %d" arg1 == identifier.Name
+//@ emits [C11] "const %s = %d" arg2 == identifier.Value
+//@ emits [C11] "const %s = %d" assert identifier.IDTyp == parser.TERMID
+
+//@ func actionCodeReplace
+//@ trusted $$/$n text substitution (regexp, closure): covered by its own clauses under C07, not re-verified at call sites
+//@ props C01 C07 C08
+//@ modifies nothing
+
+//@ func actionCodeReplaceTs
+//@ trusted see actionCodeReplace
+//@ props C01 C07 C08
+//@ modifies nothing
+
+// one case per rule 1..n-1: `case i`, lhs symbol id, window size == pop count == |rhs|  (C01, C07)
+//@ func (*TemplateBuilder).buildReduceFunc
+//@ props C01 C07 C08
+//@ requires b != nil && wfBuilder(b.vnode)
+//@ emits [C01] "case %d: \n" arg1 == i
+//@ emits [C01] "case %d: \n" assert 1 <= i && i < len(b.vnode.G.ProductoinRules)
+//@ emits [C01] "dollarDolar.YySymIndex = %d" arg1 == b.vnode.G.ProductoinRules[i].LeftPart.ID
+//@ emits [C01,C07] "[topIndex-%d : " arg1 == len(b.vnode.G.ProductoinRules[i].RighPart)
+//@ emits [C01,C07] "PopStateSym(%d)" arg1 == len(b.vnode.G.ProductoinRules[i].RighPart)
+//@ loop 0: invariant 1 <= i
+
+//@ func (*TsBuilder).buildReduceFunc
+//@ props C01 C07 C08
+//@ requires b != nil && wfBuilder(b.vnode)
+//@ emits [C01] "case %d: {\n" arg1 == i
+//@ emits [C01] "case %d: {\n" assert 1 <= i && i < len(b.vnode.G.ProductoinRules)
+//@ emits [C01] "dollarDolar.YySymIndex = %d" arg1 == b.vnode.G.ProductoinRules[i].LeftPart.ID
+//@ emits [C01,C07] "StateSymStack.slice(topIndex-%d , StackPointer)" arg1 == len(b.vnode.G.ProductoinRules[i].RighPart)
+//@ emits [C01,C07] "PopStateSym(%d);" arg1 == len(b.vnode.G.ProductoinRules[i].RighPart)
+//@ loop 0: invariant 1 <= i
